@@ -12,7 +12,8 @@ LEVEL = "proof"
 RULE = ("msprime tree sequences (2-9 contemporaneous samples, 5-1000 bp integer coordinates, recombining, "
         "Kingman/Beta/Dirac mergers => polytomies); about half get missing data: 1-3 (sample, interval) pairs are "
         "isolated by cutting the sample's edges, some get a deleted interval (all samples missing there), then "
-        "simplify() removes the unary nodes; x prior distribution (lognorm, gamma).  Non-trivial: >= 2 trees and at "
+        "simplify() removes the unary nodes; half of all inputs then get ALL node ids renumbered at random (samples not ids "
+        "0..n-1); x prior distribution (lognorm, gamma).  Non-trivial: >= 2 trees and at "
         "least one node whose span table has >= 2 entries; kinds record missing data / polytomies / several totals T")
 ASSUME = ["FIRST SENTENCE OF THE PROPERTY IS DECIDED DIFFERENTIALLY, NOT BY A THEOREM: SpansBySamples.first_pass is "
           "compared exactly (integer spans) with the reference tally spans_ref evaluated inside Coq on tskit's own "
@@ -85,6 +86,15 @@ def sym_blocks(rng):
 
 
 def make_ts(rng):
+    ts, kind = make_ts0(rng)
+    if rng.random() < 0.5 and ts.num_nodes > 1:
+        # node ids carry no meaning: samples need not be ids 0..n-1 (forward simulators, subset())
+        ts = gen.permute_nodes(rng, ts)
+        kind += "+perm"
+    return ts, kind
+
+
+def make_ts0(rng):
     if rng.random() < 0.1:
         return sym_blocks(rng), "sym"
     n = rng.choice([2, 3, 4, 4, 5, 6, 7, 8, 9])
